@@ -68,7 +68,7 @@ def visible_names(prog, m, fn):
     return vis, mn, opn
 
 
-def rule_name(rep, prog, m, fn, rule='R-NAME'):
+def rule_name(rep, prog, m, fn, rule='R-NAME', exceptions=None):
     """every free name loaded in fn resolves (module scope, star imports, builtins); every
     `<repo module>.attr` exists in that module."""
     vis, modnames, opn = visible_names(prog, m, fn)
@@ -82,6 +82,10 @@ def rule_name(rep, prog, m, fn, rule='R-NAME'):
             continue
         undefined.setdefault(nm.id, nm)
     n_ok = 0
+    for name in list(undefined):
+        if exceptions and (q, name) in exceptions:
+            rep.note('R-NAME exception %s:%s name %s: %s' % (m.rel, q, name, exceptions[(q, name)]))
+            del undefined[name]
     for name, node in sorted(undefined.items()):
         rep.ob(rule, '%s:%s' % (m.rel, q), False,
                'name %r is used but defined nowhere in the module, its star imports or builtins' % name,
